@@ -258,7 +258,7 @@ func runC12(c *core.Ctx) {
 		c.Unknown("R4", "ActorDef.Spawn", "-", "method not found")
 	} else {
 		c.Analysed(core.FuncName(sp))
-		ok, detail := c12spawn(p, sp)
+		ok, detail := c12spawn(p, core.SameParamsImpl(p, sp))
 		c.Check(ok, "R4", "ActorDef.Spawn", p.Pos(sp.Pos()), detail, detail)
 	}
 	_ = types.Typ
